@@ -9,8 +9,8 @@ import time
 from bvm import harness
 
 PROP = "C11"
-RULE = ("operations {append, extend, pop, cleanup, avps=, __setitem__, update_key, update_avps, refresh} over a small AVP "
-        "alphabet (equal-valued duplicates, same-name different-value, unknown, Grouped) on generic, decoded and typed "
+RULE = ("operations {append, extend, pop, cleanup, avps=, __setitem__, update_key, update_avps, update_avp, refresh} over a small AVP "
+        "alphabet (equal-valued duplicates, same-name different-value, unknown, Grouped, Session-Id) on generic, decoded and typed "
         "messages; DFS with abstract-state hashing, exhaustive until closure for lists of <= MAXLEN AVPs (bounded depth), "
         "then random sequences of length <= 40; invariants I1 (names <-> list bijection by identity), I2 (has_avp), "
         "I3 (list order vs reference container), I4 (Message Length == len(dump())); distinct = distinct abstract states reached")
@@ -203,6 +203,25 @@ def op_update_avps(value):
     return f
 
 
+def op_update_avp(value):
+    """the singular form: replaces the object bound to origin_host_avp by a new one of the same class, in the same slot"""
+    def f(msg, ref):
+        target = names_of(msg).get("origin_host_avp")
+        if target is None:
+            return
+        msg.update_avp("origin_host_avp", value)
+        new = msg.__dict__.get("origin_host_avp")
+        for i, o in enumerate(ref.lst):
+            if o is target:
+                ref.lst[i] = new if new is not None else o
+                if new is not None and (new.data != value.encode() or new.get_code() != 264):
+                    f.detail = "wrong-data"
+                break
+    f.__name__ = "update_avp(origin_host_avp=%s)" % value
+    f.base = "update_avp"
+    return f
+
+
 def op_refresh(msg, ref):
     msg.refresh()
 op_refresh.base = "refresh"
@@ -211,7 +230,7 @@ op_refresh.base = "refresh"
 OPS = [op_append("A"), op_append("A"), op_append("B"), op_append("U"), op_append("G"), op_append("R"), op_append("V"), op_append("P"),
        op_pop("first"), op_pop("last"), op_pop("mid"), op_cleanup, op_setavps("AB"), op_setavps("A"), op_setitem("first", "B"),
        op_setitem("last", "A"), op_setitem("last", "U"), op_setitem("first", "P"), op_update_key, op_update_avps("new.host"), op_update_avps("x"), op_refresh,
-       op_extend("AU")]
+       op_extend("AU"), op_append("S"), op_update_avp("a.much.longer.host.name"), op_update_avp("q")]
 OPS = OPS[1:]   # one append(A) is enough: every call creates a fresh, equal-valued object
 
 
